@@ -201,6 +201,19 @@ pub fn c13_bases<G: AffineRepr>(variant: &str, rng: &mut rand_chacha::ChaChaRng,
         PedersenGens { B: rnd(rng), B_blinding: G::zero() }
     } else if variant.starts_with("identity_value_base") {
         PedersenGens { B: G::zero(), B_blinding: rnd(rng) }
+    } else if variant.starts_with("equal_bases") {
+        let b = rnd(rng);
+        PedersenGens { B: b, B_blinding: b }
+    } else if variant.starts_with("opposite_bases") {
+        // two different points with a common coordinate (on short Weierstrass curves -B shares x with B)
+        let b = rnd(rng);
+        PedersenGens { B: b, B_blinding: (-b.into_group()).into_affine() }
+    } else if variant.starts_with("torsion_mirror_bases") {
+        // cofactor curves: -(B + T2) with T2 of order 2 is the point (x_B, -y_B) on a twisted Edwards curve
+        let t = torsion.as_ref()?;
+        let t2 = t.iter().find(|p| !p.is_zero() && (p.into_group() + p.into_group()).is_zero())?;
+        let b = rnd(rng);
+        PedersenGens { B: b, B_blinding: (-(b.into_group() + t2.into_group())).into_affine() }
     } else if variant.starts_with("torsion_bases") {
         // legal on-curve bases with a small-order component (cofactor curves only)
         let t = torsion.as_ref()?;
@@ -351,6 +364,53 @@ pub fn c07_native<G: AffineRepr + 'static>(case: &crate::scen_c07::BatchCase, se
     let shapes: Vec<Shape> = case.instances.iter().map(|i| i.shape.clone()).collect();
     let b_ok = run_batch(&proofs, &shapes, &shrs);
     out.push((format!("batch (members honest unless marked otherwise in the case): batch verdict {} equals conjunction of individual verdicts {:?}", b_ok, indiv), b_ok == indiv.iter().all(|x| *x)));
+    // the same list handed over through iterators that do not know their length (size_hint lower bound 0 / too small),
+    // and in reverse order
+    for mode in 0..3 {
+        let mut ts: Vec<Transcript> = shapes.iter().map(|s| new_verifier_transcript(s)).collect();
+        let mut insts = vec![];
+        for (i, vt) in ts.iter_mut().enumerate() {
+            rewind_for_verifier(&shrs[i]);
+            let pi = if kinds[i] == "same_proof_other_constant" && i > 0 { i - 1 } else { i };
+            insts.push((build_verifier(&shapes[i], &shrs[i], vt), &proofs[pi]));
+        }
+        let mut rng = rand_chacha::ChaChaRng::seed_from_u64(seed ^ 0xa1fa);
+        let ok = match mode {
+            0 => batch_verify(&mut rng, insts.into_iter().filter(|_| true), &pc, &bp).is_ok(),
+            1 => {
+                let mut it = insts.into_iter();
+                batch_verify(&mut rng, std::iter::from_fn(move || it.next()), &pc, &bp).is_ok()
+            }
+            _ => batch_verify(&mut rng, insts.into_iter().rev(), &pc, &bp).is_ok(),
+        };
+        out.push((format!("the same batch through {}: verdict {} equals the conjunction of the individual verdicts", ["a filtered iterator (size_hint lower bound 0)", "iter::from_fn (no size information)", "a reversed iterator"][mode], ok), ok == indiv.iter().all(|x| *x)));
+    }
+    // members made by the reference prover with unaccounted / blinded points in the second-phase slots of a one-phase
+    // circuit: whatever the verdict, a batch of that one proof agrees with it, and next to an honest member too
+    if shapes[0].gates().1 == 0 && indiv.first().copied().unwrap_or(false) {
+        use crate::refimpl::{ref_prove, Knob};
+        let pad0 = shapes[0].padded().max(1);
+        let (Gs, Hs) = (bp.share(0).verif_G(pad0), bp.share(0).verif_H(pad0));
+        for knob in [Knob::GarbagePhase2, Knob::BlindedPhase2] {
+            let shr = new_shared::<G>(&shapes[0], &Default::default(), Box::new(PlainVals::<G::ScalarField>::new(HashMap::new(), seed + 31)));
+            if let Some(p) = ref_prove(&shapes[0], &shr, pc.B, pc.B_blinding, &Gs, &Hs, seed, knob.clone()) {
+                rewind_for_verifier(&shr);
+                let mut vt = new_verifier_transcript(&shapes[0]);
+                let single = build_verifier(&shapes[0], &shr, &mut vt).verify(&p, &pc, &bp).is_ok();
+                let f = fork_for_verifier(&shapes[0], &shr);
+                let mut vt = new_verifier_transcript(&shapes[0]);
+                let v = build_verifier(&shapes[0], &f, &mut vt);
+                let mut rng = rand_chacha::ChaChaRng::seed_from_u64(seed ^ 0xa1fb);
+                let alone = batch_verify(&mut rng, vec![(v, &p)], &pc, &bp).is_ok();
+                let (f1, f2) = (fork_for_verifier(&shapes[0], &shrs[0]), fork_for_verifier(&shapes[0], &shr));
+                let (mut t1, mut t2) = (new_verifier_transcript(&shapes[0]), new_verifier_transcript(&shapes[0]));
+                let insts = vec![(build_verifier(&shapes[0], &f1, &mut t1), &proofs[0]), (build_verifier(&shapes[0], &f2, &mut t2), &p)];
+                let mut rng = rand_chacha::ChaChaRng::seed_from_u64(seed ^ 0xa1fc);
+                let pair = batch_verify(&mut rng, insts, &pc, &bp).is_ok();
+                out.push((format!("reference prover ({:?}): single verdict {} = batch of that proof {} = batch next to an honest member {}", knob, single, alone, pair), single == alone && single == pair));
+            }
+        }
+    }
     // (b) correlated offsets on copies of the first member's proof
     let mut offset_sets: Vec<Vec<G::ScalarField>> = vec![];
     let from_model: Vec<Option<G::ScalarField>> = (0..k).map(|i| model.get(&format!("d{}", i)).and_then(|s| crate::job::parse_rational::<G::ScalarField>(s))).collect();
